@@ -38,12 +38,17 @@ struct Child1 {
 
 type POwner = AppendAndCloseOnDrop<ParentM, CountingSink>;
 
+/// payload of the panics this harness raises on purpose (silenced in the panic hook)
+struct IntentionalPanic;
+
 #[derive(Clone, Copy, Debug, PartialEq, Eq)]
 enum Op {
     Open(usize, bool), // (slot, wait mode)
     MutateGuard(usize),
     DropGuard(usize),
-    WaitForData, // slot 0 only
+    /// the guard is dropped by a panic unwinding through its owner (still a drop: the value counts)
+    DropGuardUnwinding(usize),
+    WaitForData, // slot 0 only; may be called repeatedly
     MutateParent,
     DropParent,
     CreateForce,
@@ -62,7 +67,7 @@ struct Model {
     parent_alive: bool,
     xy: (u64, u64),
     slots: [SlotState; 2],
-    waited: bool,
+    waited: u8,
     force_alive: u32,
     force_created: u32,
     force_fired: bool,
@@ -74,7 +79,7 @@ struct Model {
 
 impl Model {
     fn new() -> Self {
-        Model { parent_alive: true, xy: (1, 2), slots: [SlotState::Unopened; 2], waited: false, force_alive: 0, force_created: 0, force_fired: false, parent_mutations: 0, next_token: 100, emitted: None }
+        Model { parent_alive: true, xy: (1, 2), slots: [SlotState::Unopened; 2], waited: 0, force_alive: 0, force_created: 0, force_fired: false, parent_mutations: 0, next_token: 100, emitted: None }
     }
     fn due(&self) -> bool {
         !self.parent_alive && (self.force_fired || !self.slots.iter().any(|s| matches!(s, SlotState::Open { wait: true, .. })))
@@ -99,7 +104,7 @@ impl Model {
                 v.push(Op::Open(i, true));
                 v.push(Op::Open(i, false));
             }
-            if matches!(self.slots[0], SlotState::Returned { .. }) && !self.waited {
+            if matches!(self.slots[0], SlotState::Returned { .. }) && self.waited < 2 {
                 v.push(Op::WaitForData);
             }
             if self.parent_mutations < 1 {
@@ -114,6 +119,7 @@ impl Model {
             if matches!(self.slots[i], SlotState::Open { .. }) {
                 v.push(Op::MutateGuard(i));
                 v.push(Op::DropGuard(i));
+                v.push(Op::DropGuardUnwinding(i));
             }
         }
         if self.force_alive > 0 {
@@ -138,13 +144,13 @@ impl Model {
                     self.next_token += 1;
                 }
             }
-            Op::DropGuard(i) => {
+            Op::DropGuard(i) | Op::DropGuardUnwinding(i) => {
                 if let SlotState::Open { token, .. } = self.slots[i] {
                     // the value is sent before the guard's flush guard is released
-                    self.slots[i] = if self.emitted.is_some() { SlotState::Returned { token } } else { SlotState::Returned { token } };
+                    self.slots[i] = SlotState::Returned { token };
                 }
             }
-            Op::WaitForData => self.waited = true,
+            Op::WaitForData => self.waited += 1,
             Op::MutateParent => {
                 self.xy = (self.next_token, self.next_token + 1);
                 self.next_token += 2;
@@ -224,10 +230,25 @@ impl Real {
                 }
                 None
             }
+            Op::DropGuardUnwinding(i) => {
+                let (g0, g1) = if i == 0 { (self.g0.take(), None) } else { (None, self.g1.take()) };
+                let r = std::panic::catch_unwind(std::panic::AssertUnwindSafe(move || {
+                    let _held = (g0, g1);
+                    std::panic::panic_any(IntentionalPanic);
+                }));
+                assert!(r.is_err());
+                None
+            }
             Op::WaitForData => {
                 let p = self.parent.as_mut().unwrap();
-                let got = block_on(p.s0.wait_for_data()).is_some();
-                Some(got)
+                let tok = match m.slots[0] {
+                    SlotState::Returned { token } => token,
+                    _ => unreachable!(),
+                };
+                // the value must be there, and be the guard's last value, on every call
+                #[allow(deprecated)]
+                let got = block_on(p.s0.wait_for_data()).as_ref().map(|c| c.v0);
+                Some(got == Some(tok))
             }
             Op::MutateParent => {
                 let p = self.parent.as_mut().unwrap();
@@ -269,7 +290,7 @@ fn run_sequential(ops: &[Op], rep: &Report) -> bool {
             let next = if m.parent_alive {
                 Op::DropParent
             } else if matches!(m.slots[0], SlotState::Open { .. }) {
-                Op::DropGuard(0)
+                if all.len() % 2 == 0 { Op::DropGuard(0) } else { Op::DropGuardUnwinding(0) }
             } else if matches!(m.slots[1], SlotState::Open { .. }) {
                 Op::DropGuard(1)
             } else {
@@ -287,7 +308,7 @@ fn run_sequential(ops: &[Op], rep: &Report) -> bool {
                 return false;
             }
             (Op::WaitForData, Some(false)) => {
-                rep.violation("wait-for-data-lost-value", witness("wait_for_data() returned no value although the guard had been dropped", json!({})));
+                rep.violation("wait-for-data-lost-value", witness("wait_for_data() did not return the guard's last value although the guard had been dropped", json!({"wait_call_number": m.waited})));
                 return false;
             }
             _ => {}
@@ -386,6 +407,10 @@ fn concurrent_history(rng: &mut Rng, rep: &Report) -> Option<u64> {
         objs.push((3, O::Force(f)));
     }
     rng.shuffle(&mut objs);
+    // the parent's thread may first wait for slot 0's data (once or twice); a guard's thread may
+    // drop its guard by unwinding
+    let waits = if rng.below(3) == 0 { 1 + rng.below(2) } else { 0 };
+    let unwinding_mask = if rng.below(3) == 0 { rng.below(4) } else { 0 };
     let n = objs.len();
     let barrier = Arc::new(Barrier::new(n));
     let threads: Vec<_> = objs
@@ -398,11 +423,31 @@ fn concurrent_history(rng: &mut Rng, rep: &Report) -> Option<u64> {
                 for _ in 0..delay * 20 {
                     std::hint::spin_loop();
                 }
+                let mut waited_ok = true;
+                let o = match o {
+                    O::Parent(mut p) => {
+                        for _ in 0..waits {
+                            #[allow(deprecated)]
+                            let got = block_on(p.s0.wait_for_data()).as_ref().map(|c| c.v0);
+                            waited_ok &= got == Some(tok);
+                        }
+                        O::Parent(p)
+                    }
+                    o => o,
+                };
                 let start = ticket();
-                drop(o);
+                if (k == 1 || k == 2) && unwinding_mask >> (k - 1) & 1 == 1 {
+                    let r = std::panic::catch_unwind(std::panic::AssertUnwindSafe(move || {
+                        let _held = o;
+                        std::panic::panic_any(IntentionalPanic);
+                    }));
+                    assert!(r.is_err());
+                } else {
+                    drop(o);
+                }
                 let end = ticket();
                 progress_tick();
-                (k, start, end)
+                (k, start, end, waited_ok)
             })
         })
         .collect();
@@ -417,7 +462,7 @@ fn concurrent_history(rng: &mut Rng, rep: &Report) -> Option<u64> {
         }
     }
     let apps = sink.take();
-    let witness = |what: &str| json!({"what": what, "slot0_wait": wait0, "slot1": if use1 { Some(wait1) } else { None }, "force_guard": has_force, "drops(kind,start,end)": format!("{drops:?}"), "appends": apps.iter().map(|a| (a.ticket, format!("{:?}", content(a)))).collect::<Vec<_>>()});
+    let witness = |what: &str| json!({"what": what, "parent_waits_for_data": waits, "guards_dropped_by_unwinding(bit0=slot0,bit1=slot1)": unwinding_mask, "slot0_wait": wait0, "slot1": if use1 { Some(wait1) } else { None }, "force_guard": has_force, "drops(kind,start,end)": format!("{drops:?}"), "appends": apps.iter().map(|a| (a.ticket, format!("{:?}", content(a)))).collect::<Vec<_>>()});
     if apps.len() != 1 {
         rep.violation(if apps.is_empty() { "entry-never-appended" } else { "entry-appended-twice" }, witness("exactly one append expected"));
         return None;
@@ -426,6 +471,14 @@ fn concurrent_history(rng: &mut Rng, rep: &Report) -> Option<u64> {
     let c = content(a);
     if (c.0, c.1) != (Some(tok + 2), Some(tok + 3)) {
         rep.violation("non-slot-fields-affected", witness("parent fields differ"));
+        return None;
+    }
+    if drops.iter().any(|x| !x.3) {
+        rep.violation("wait-for-data-lost-value", witness("wait_for_data() on the parent's thread did not return the guard's last value"));
+        return None;
+    }
+    if waits > 0 && c.2 != Some(tok) {
+        rep.violation("slot-value-lost-or-stale", witness("the parent had received slot 0's value through wait_for_data() before it was dropped, but the entry lacks it"));
         return None;
     }
     let d = |k: u8| drops.iter().find(|x| x.0 == k).copied();
@@ -464,7 +517,7 @@ fn concurrent_history(rng: &mut Rng, rep: &Report) -> Option<u64> {
             }
         }
     }
-    Some(Fnv::new().u64(wait0 as u64).u64(wait1 as u64 + 2 * use1 as u64).u64(has_force as u64).u64(c.2.is_some() as u64).u64(c.3.is_some() as u64)
+    Some(Fnv::new().u64(waits).u64(unwinding_mask).u64(wait0 as u64).u64(wait1 as u64 + 2 * use1 as u64).u64(has_force as u64).u64(c.2.is_some() as u64).u64(c.3.is_some() as u64)
         .u64(drops.iter().map(|x| x.1).enumerate().min_by_key(|x| x.1).map(|x| x.0 as u64).unwrap_or(0)).finish() | 1)
 }
 
@@ -472,6 +525,12 @@ fn main() {
     let args = Args::parse();
     let rep = Report::new("C13", &args);
     vcommon::sync::install_perturbation(args.seed, if is_miri() { 1000 } else { 300 });
+    let default_hook = std::panic::take_hook();
+    std::panic::set_hook(Box::new(move |info| {
+        if !info.payload().is::<IntentionalPanic>() {
+            default_hook(info);
+        }
+    }));
     if is_miri() || args.get_u64("tiny", 0) == 1 {
         rep.rule("concurrent history (parent, slot guards, force-flush guard dropped on separate threads) under the interpreter/sanitizer");
         let mut rng = Rng::derive(args.seed, args.get_u64("variant", 0));
